@@ -3,3 +3,5 @@ import FeedVerif.Model.DictDriver
 import FeedVerif.Props.C15
 import FeedVerif.Model.UriDriver
 import FeedVerif.Props.C04
+import FeedVerif.Model.OptionsDriver
+import FeedVerif.Props.C18
